@@ -46,7 +46,8 @@ def digest(obj):
 def segment_env(env_spec, repo):
     env = {"PATH": "/usr/bin:/bin", "HOME": "/tmp", "PYTHONPATH": VERIF,
            "PYTHONHASHSEED": str(env_spec.get("hashseed", 0)),
-           "PYTHONPYCACHEPREFIX": os.path.join(scratch_base(), "fmsim-pyc-%s" % digest(repo)),
+           "PYTHONPYCACHEPREFIX": os.environ.get("FMSIM_PYC") or os.path.join(
+               scratch_base(), "fmsim-pyc-%s" % digest(repo)),
            "PYTHONDONTWRITEBYTECODE": "", "PYTHONWARNINGS": "ignore"}
     env.update(ENVS[env_spec.get("locale", "utf8")])
     return env
